@@ -55,10 +55,27 @@ def valid_outcomes(expected: list[str], arrivals: list[tuple[str, int]]) -> set[
 
 # ------------------------------------------------------------------------------ the program
 def execute(ex: Execution, expected: list[str], arrivals: list[tuple[str, int]], w: int,
-            valid: set[Any], fail_once: bool = False) -> tuple[Any, list[Any]]:
+            valid: set[Any], fail_once: bool = False, wait_after: bool = False) -> tuple[Any, list[Any]]:
     cfg = RunConfig()
     with EngineExec(ex, cfg) as e:
         h = e.h
+        answered: set[str] = set()
+
+        def answer_waiters(hh: Any) -> None:
+            # the client answers a wait once it exists (an answer sent before the waiter is registered is dropped by design)
+            if not hh.runners:
+                return
+            for ws in hh.runners[-1].state.workers.values():
+                for wt in ws.collected_waiters:
+                    if wt.waiter_id not in answered and wt.resolved_event is None:
+                        answered.add(wt.waiter_id)
+                        from vmc.engine import Action
+                        from vmc.events import Resp
+
+                        e.add_script([Action(f"answer {wt.waiter_id}", (lambda k=wt.waiter_id: hd.ctx.send_event(Resp(uid=900, key=k))))])
+
+        if wait_after:
+            cfg.on_quiescent.append(answer_waiters)
         returned: list[tuple[int, ...]] = []
         completion_order: list[tuple[str, int]] = []
         exp_types = [TYPES[t] for t in expected]
@@ -75,6 +92,12 @@ def execute(ex: Execution, expected: list[str], arrivals: list[tuple[str, int]],
         async def coll(self, ctx, ev, inv):  # noqa: ANN001
             await gate(f"c{label_of.get(id(ev), type(ev).__name__ + str(ev.uid))}")
             r = ctx.collect_events(ev, exp_types)
+            if r is not None and wait_after:
+                # the step that holds a full set suspends before it finishes (e.g. asks a human to confirm)
+                from vmc.events import Resp
+
+                wid = "w:" + label_of.get(id(ev), "?")
+                await ctx.wait_for_event(Resp, waiter_id=wid, requirements={"key": wid}, timeout=None)
             if r is not None:
                 inv.info["returned"] = tuple(label_of.get(id(x), f"{type(x).__name__}{x.uid}?copy") for x in r)
                 inv.info["types"] = [type(x).__name__ for x in r]
@@ -92,6 +115,9 @@ def execute(ex: Execution, expected: list[str], arrivals: list[tuple[str, int]],
         e.drive()  # ends when nothing is enabled any more (the run idles: there is no StopEvent)
         v: list[Any] = []
         wit = {"expected": "".join(expected), "workers": ("1" if w == 1 else ">1")}
+        if wait_after:
+            wit["waits_after_collecting"] = True
+            wit["arrivals_beyond_one_set"] = len(arrivals) > len(expected)
         if len(set(arrivals)) < len(arrivals):
             wit["value_equal_arrivals"] = True
         # a list is really "returned" only when the invocation that computed it completed (its result tick
@@ -153,6 +179,16 @@ def programs(tier: str) -> list[Program]:
                               max_dev=(None if len(arrivals) <= 4 else 4),
                               min_concurrency=min(w, len(arrivals))))
     for w in (1, 2):
+        for expected, arrivals in ((["A", "B"], [("A", 1), ("B", 1)]), (["A", "B"], [("A", 1), ("B", 1), ("A", 2), ("B", 2)]),
+                                   (["A", "A", "B"], [("A", 1), ("A", 2), ("B", 1)])):
+            if q and w == 2 and len(arrivals) == 4:
+                continue
+            ps.append(Program(f"collect_then_wait({''.join(expected)};{''.join(t + str(u) for t, u in arrivals)};w={w})",
+                              {"expected": expected, "arrivals": arrivals, "w": w, "wait_after": True},
+                              (lambda ex, expected=expected, arrivals=arrivals, w=w, valid=valid_outcomes(expected, arrivals):
+                               execute(ex, expected, arrivals, w, valid, wait_after=True)),
+                              max_dev=(3 if q else 5)))
+    for w in (1, 2):
         expected, arrivals = ["A", "B"], [("A", 1), ("B", 1), ("A", 2), ("B", 2)]
         ps.append(Program(f"collect_fail_once(AB;w={w})", {"expected": expected, "arrivals": arrivals, "w": w, "fail_once": True},
                           (lambda ex, expected=expected, arrivals=arrivals, w=w, valid=valid_outcomes(expected, arrivals):
@@ -162,7 +198,8 @@ def programs(tier: str) -> list[Program]:
 
 RULE = ("expected lists [A,B], [A,A,B], [A,B,C], [A,A] x arrival multisets with surplus events, value-equal events and two "
         "rounds x collector "
-        "num_workers 1..3(4) x every order in which the collecting invocations complete; the multiset of returned "
+        "num_workers 1..3(4) x every order in which the collecting invocations complete (+ a collector that fails once and is "
+        "retried, + a collector that suspends in wait_for_event while it holds a full set); the multiset of returned "
         "lists must equal the list-buffer reference on some serial order of the same arrivals, no event may be in "
         "two lists; num_workers=1 runs bind the reference to the implementation; non-trivial = at least one "
         "schedule deviation")
